@@ -75,6 +75,14 @@ def frame(tid, body):
     return b'\n[' + tid + b']\n' + body + b'\n---\n'
 
 
+# Filename options for the second file.  `custom` has no Go file of that name beside the snapshot
+# directory (known finding D8 applies); the others are the snapshot files of test files whose base
+# name contains `.snap` itself (`api.snapshot_test.go` -> `api.snapshot_test.snap`), `.go`, or dots: the
+# file-level protection under -run must find `../<name>.go` from `<name>.snap`
+GOFILE_NAMES = ['api.snapshot_test', 'foo.snap_test', 'x.snap', 'my.snapper_test', 'a.snap.b.snap_test', '.snap_test',
+                'v1.2_test', 'gen.go_test', 'plain_test']
+
+
 def make_spec(g):
     r = g.r
     tests = sorted(r.sample(TESTS, r.randint(3, 7)))
@@ -98,7 +106,10 @@ def make_spec(g):
     ncalls = {t: r.choice([1, 1, 2]) for t in tests}
     return dict(tests=tests, pattern=pattern, skipped=skipped, ncalls=ncalls,
                 mode=r.choice([(False, 'clean'), (False, 'true'), (False, ''), (True, 'clean')]),
-                sort=r.choice(['-', '0', '1']), second_file=r.random() < 0.4, shuffle=r.randrange(1 << 30))
+                sort=r.choice(['-', '0', '1']), second_file=r.random() < 0.5, shuffle=r.randrange(1 << 30),
+                second_name=r.choice(['custom'] + GOFILE_NAMES) if r.random() < 0.6 else 'custom',
+                # (parallel subtests resume after their parent returned: a child may call Skip AFTER its parent did)
+                child_skips=r.random() < 0.3)
 
 
 def render(tag, spec):
@@ -109,7 +120,9 @@ def render(tag, spec):
     ci, upd = spec['mode']
     w.add(mode_line(ci, upd))
     w.add(cfg_line(1, 'pkg/__snapshots__'))
-    w.add(cfg_line(2, 'pkg/__snapshots__', 'custom'))
+    name2 = spec.get('second_name', 'custom')
+    has_go2 = name2 != 'custom'
+    w.add(cfg_line(2, 'pkg/__snapshots__', name2))
     tests, p = spec['tests'], spec['pattern']
 
     def protected(t):
@@ -118,6 +131,7 @@ def render(tag, spec):
     # a test's body executes if go selects it and no ancestor (or itself) called Skip before it
     runs = {t: selected[t] and not protected(t) for t in tests}
     skip_calls = [s for s in spec['skipped'] if selected[s] and not any(s.startswith(o + '/') for o in spec['skipped'] if o != s)]
+    late_skips = [s for s in spec['skipped'] if selected[s] and s not in skip_calls] if spec.get('child_skips') else []
     entries1, entries2 = [], []
     for t in tests:
         for k in range(1, spec['ncalls'][t] + 1):
@@ -131,11 +145,16 @@ def render(tag, spec):
         w.add('fsput %s %s' % (hx('pkg/__snapshots__/zz_verif_harness_test.snap'),
                                hx(b''.join(frame(('%s - %d' % (t, k)).encode(), ('v-%s-%d' % (t, k)).encode()) for t, k in entries1))))
     if entries2:
-        w.add('fsput %s %s' % (hx('pkg/__snapshots__/custom.snap'),
+        w.add('fsput %s %s' % (hx('pkg/__snapshots__/%s.snap' % name2),
                                hx(b''.join(frame(('%s - %d' % (t, k)).encode(), ('v-%s-%d' % (t, k)).encode()) for t, k in entries2))))
     tops = sorted(set(t.split('/')[0] for t in tests))
-    gosrc = 'package pkg\n\nimport "testing"\n\n' + ''.join('func %s(t *testing.T) {}\n' % f for f in tops)
+    tops2 = sorted(set(t.split('/')[0] for t, _ in entries2)) if has_go2 else []
+    gosrc = 'package pkg\n\nimport "testing"\n\n' + ''.join('func %s(t *testing.T) {}\n' % f for f in tops if f not in tops2)
     w.add('fsput %s %s' % (hx('pkg/zz_verif_harness_test.go'), hx(gosrc)))
+    if has_go2 and entries2:
+        # the tests whose snapshots live in the second file are declared in the test file it is named after
+        w.add('fsput %s %s' % (hx('pkg/%s.go' % name2),
+                               hx('package pkg\n\nimport "testing"\n\n' + ''.join('func %s(t *testing.T) {}\n' % f for f in tops2))))
     texec = 0
     for t in tests:
         if t in skip_calls:
@@ -149,17 +168,36 @@ def render(tag, spec):
             for k in range(1, spec['ncalls'][t] + 1):
                 w.add('snap %d %d %s' % (cfg, texec, hx('v-%s-%d' % (t, k))), ('prepared-entry-passes', exp_silent))
             w.add('end %d' % texec)
+    for t in late_skips:
+        texec += 1
+        w.add('begin %d %s' % (texec, hx(t)))
+        w.add('skip %d %s' % (texec, rr.choice(['skip', 'skipf', 'skipnow'])))
     ref = w.add('fsdump')
-    cl = w.add('clean %s %s 1' % (spec['sort'], hx(p)))
+    nskip_calls = sum(1 for o in w.ops if o.startswith('skip '))
+
+    def skip_total(line, raw, ww):
+        # (the clause of C20 that concerns this family: the summary counts every snaps.Skip* CALL)
+        m = re.search(r'(\d+) snapshots? skipped\n', line.out.decode('utf-8', 'replace'))
+        got = int(m.group(1)) if m else 0
+        if got != nskip_calls:
+            return 'the summary shows %d skipped, %d snaps.Skip* calls were made' % (got, nskip_calls)
+        return None
+    cl = w.add('clean %s %s 1' % (spec['sort'], hx(p)), ('summary-counts-every-skip-call', skip_total))
 
     def oracle(line, raw, ww):
         before, after = parse_fs(ww.impl[ref]), parse_fs(raw)
         out = Line(ww.impl[cl]).out.decode('utf-8', 'replace')
-        for fname, ents in (('zz_verif_harness_test.snap', entries1), ('custom.snap', entries2)):
+        for fname, ents in (('zz_verif_harness_test.snap', entries1), (name2 + '.snap', entries2)):
             if not ents:
                 continue
-            pa = [x for x in before if x.endswith(('/' + fname).encode())][0]
+            pa = [x for x in before if x.endswith(('/__snapshots__/' + fname).encode())][0]
             file_addressed = any(runs[t] for t, _ in ents)
+            # the file-level rule of the library: `../<name>.go` exists and declares no function that
+            # -run matches.  Where it applies the file is protected; known findings D6/D8 are about files
+            # it does not reach (no such Go file; a selected function whose tests all called Skip)
+            gofuncs = (tops2 if fname != 'zz_verif_harness_test.snap' else [f for f in tops if f not in tops2]) \
+                if (fname == 'zz_verif_harness_test.snap' or has_go2) else None
+            rule_protects = p != '' and gofuncs is not None and not any(re.search(p, f) for f in gofuncs)
             for t, k in ents:
                 if runs[t] and k == 9 and p == '' and pa in after:
                     if ('• %s - 9\n' % t) not in out:
@@ -169,9 +207,15 @@ def render(tag, spec):
                     continue
                 why = 'skipped through snaps.Skip*' if protected(t) else ('not selected by -run %r' % p)
                 tid = '%s - %d' % (t, k)
-                if pa not in after:
+                if pa not in after or (pa.decode('utf-8', 'replace') + '\n') in out:
                     ww.meta['cls'] = 'D6' if (p == '' and all(protected(x) or not selected[x] for x, _ in ents)) else 'D8'
-                    return 'file %s holding entries of a test that did not run (%s) was deleted' % (fname, why)
+                    if rule_protects:
+                        ww.meta['cls'] = None
+                    elif p != '' and gofuncs is not None and all(protected(x) or not selected[x] for x, _ in ents):
+                        # the Go file is found and -run selects one of its functions, but every selected
+                        # test of the file called Skip: nothing registered the file (D6 under -run)
+                        ww.meta['cls'] = 'D6'
+                    return 'file %s holding entries of a test that did not run (%s) was %s' % (fname, why, 'deleted' if pa not in after else 'listed as obsolete')
                 ids = [e[0].decode() for e in (parse_snap(after[pa]) or [])]
                 if tid not in ids or ('• %s\n' % tid) in out:
                     if p and re.search(p, tid) and not selected[t]:
@@ -192,5 +236,20 @@ def run(ctx):
     g = Gen(ctx.seed * 1000003 + 8)
     n = 250 if ctx.tier == 'quick' else 6000
     worlds = [render('c08-%d' % i, make_spec(g)) for i in range(n)]
+    # one world per second-file name, -run selecting none of the tests it holds while the default file
+    # of the same directory is used; report mode and clean mode
+    for k, name in enumerate(GOFILE_NAMES + ['custom']):
+        for mi, mode in enumerate([(False, 'clean'), (False, ''), (False, 'true')]):
+            for pat in ('TestA', '^TestA$/x'):
+                worlds.append(render('c08-name-%d-%d-%d' % (k, mi, pat != 'TestA'), dict(
+                    tests=['TestA', 'TestA/x', 'TestB', 'TestB/sub'], pattern=pat, skipped=[], ncalls={'TestA': 1, 'TestA/x': 2, 'TestB': 1, 'TestB/sub': 1},
+                    mode=mode, sort=['-', '1'][k % 2], second_file=True, second_name=name, shuffle=k, child_skips=False)))
+    # a subtest calling Skip after its parent did (parallel subtests), in both orders, twice
+    for k, (skipped, late) in enumerate([(['TestA', 'TestA/x'], True), (['TestA', 'TestA/x', 'TestA/x/deep', 'TestB/sub'], True), (['TestA/x', 'TestB'], False)]):
+        for mi, mode in enumerate([(False, 'clean'), (False, '')]):
+            worlds.append(render('c08-late-%d-%d' % (k, mi), dict(
+                tests=['TestA', 'TestA/x', 'TestA/x/deep', 'TestAB', 'TestB', 'TestB/sub'], pattern='', skipped=skipped,
+                ncalls={t: 1 for t in ['TestA', 'TestA/x', 'TestA/x/deep', 'TestAB', 'TestB', 'TestB/sub']},
+                mode=mode, sort='-', second_file=False, second_name='custom', shuffle=40 + k, child_skips=late)))
     run_suite(ctx, 'clean.skip-and-run', worlds, known=known, chunk=300)
     findings.report(ctx, 'C08')
